@@ -936,6 +936,11 @@ func cssValueSelfContained(value string) bool {
 			if i >= len(value) {
 				return false
 			}
+			if value[i] == '!' {
+				// The parser looks for "!important" without regard to
+				// escapes, the next parse would take this for the flag
+				return false
+			}
 		case '"', '\'':
 			closed := false
 			for i++; i < len(value) && !closed; i++ {
